@@ -367,3 +367,27 @@ def spec_mutant(chk, name, module, cfg, edits, workers=8, timeout=900):
     if not refuted:
         chk.tool_errors.append(f"spec mutant {name} was NOT refuted by TLC ({cfg}): the invariant it targets is vacuous")
     return refuted
+
+
+def tlc_replays(module, cfg, num=200, depth=20, timeout=600, exhaustive=False, workers=1):
+    """Behaviours printed by a spec as <<"REPLAY", ToJson(hist)>> (simulation mode, or exhaustive
+    search when the config bounds the depth). Returns a list of distinct behaviours."""
+    meta = os.path.join(WORK, "rp_" + cfg.replace(".cfg", ""))
+    shutil.rmtree(meta, ignore_errors=True)
+    cmd = ["tlc", "-workers", str(workers), "-metadir", meta, "-noGenerateSpecTE"]
+    if not exhaustive:
+        cmd += ["-simulate", f"num={num}", "-depth", str(depth)]
+    cmd += ["-config", os.path.join(SPEC, cfg), os.path.join(SPEC, module)]
+    rc, out = sh(cmd, timeout=timeout, cwd=SPEC)
+    shutil.rmtree(meta, ignore_errors=True)
+    if re.search(r"is violated|Error: ", out) and "REPLAY" not in out:
+        raise ToolError(f"replay generation {cfg} failed: " + out[-1500:])
+    flat = out.replace("\n", " ")
+    seen, res = set(), []
+    for m in re.finditer(r'<<\s*"REPLAY",\s*"((?:[^"\\]|\\.)*)"\s*>>', flat):
+        raw = json.loads('"' + m.group(1) + '"')
+        if raw not in seen:
+            seen.add(raw)
+            res.append(json.loads(raw))
+    viol = re.search(r"Invariant (\w+) is violated", out)
+    return res, (viol.group(0) if viol else None)
